@@ -25,11 +25,17 @@ def run(tier):
     chk.configs = cfgs
     for cfgname in cfgs:
         prog = Program.load(which=('SRC',), cfg=cfgname)
+        from ..rules import symbolic as _sym
+        _sym.dfs_twin_rule(chk, 'C03.dfs', prog, [q + 'column_dfs' for q in 'sdcz'] + ['ilu_%scolumn_dfs' % q for q in 'sdcz'], cfgname)
         chk.clause('C03.D1', 'L/U wired to the filled arrays; count and fix-up before the wrap')
         r11_kinds.run(chk, 'C03.kinds', prog, cfgname, floor=1900)
         chk.clause('C03.options', 'option-controlled choices of ?gstrf / ?gsitrf (relaxation routine, use of remembered pivots)')
         for _p in _drv.PRECS:
             misc.option_choice_rules(chk, 'C03.options', prog, _p, cfgname)
+        from ..rules import pivot as _pivot
+        chk.clause('C03.pivrow', 'perm_r records the row that is moved to the pivot position (*pivrow and pivptr agree at the store)')
+        for _p in 'sdcz':
+            _pivot.pivrow_in_sync_rule(chk, 'C03.pivrow', prog, _p, cfgname)
         chk.clause('C03.fixup', 'fixupL relabels the row subscripts of L for every matrix that has a column')
         misc.fixup_unconditional_rule(chk, 'C03.fixup', prog, cfgname)
         chk.clause('C03.droprow', 'ilu_?drop_row moves values and subscripts of a row together')
